@@ -8,6 +8,7 @@ import (
 	"time"
 
 	"verifsim/simredis"
+	"verifsim/simrt"
 )
 
 // C14 on a CLUSTER target — the only topology where `parallel` mode has several lanes (on a standalone target
@@ -120,6 +121,7 @@ func runC14Cluster(r *Run, stratum string) *Violation {
 		}
 	}
 
+	maxInInc := -1 // highest unit committed by the current incarnation
 	committed := make([]bool, nUnits)
 	ncommit := make([]int, nUnits)
 	logPos := 0
@@ -186,6 +188,9 @@ func runC14Cluster(r *Run, stratum string) *Violation {
 				}
 				committed[ui] = true
 				ncommit[ui]++
+				if ui > maxInInc {
+					maxInInc = ui
+				}
 				if mode == "sync" && ncommit[ui] > 1 {
 					setV("C14.applied_twice", "sync mode applied a unit twice", "unit %d (source offset %d) was committed %d times", ui, units[ui].endOff, ncommit[ui])
 				}
@@ -260,6 +265,7 @@ func runC14Cluster(r *Run, stratum string) *Violation {
 	stallSeen := false // a node was stalled while the current incarnation ran
 	start := func() {
 		incarnation++
+		maxInInc = -1
 		started = false
 		stallSeen = false
 		l.start()
@@ -268,6 +274,9 @@ func runC14Cluster(r *Run, stratum string) *Violation {
 	crash := func() {
 		r.W.Fault("crash")
 		r.Logf("CRASH incarnation %d", incarnation)
+		if maxInInc > contiguous() {
+			simrt.Probe("c14c_crash_with_hole")
+		}
 		r.Net.DialFault = func(string) error { return errors.New("process is dead") }
 		for _, n := range l.topo.Nodes {
 			for _, ss := range n.Live() {
@@ -307,8 +316,58 @@ func runC14Cluster(r *Run, stratum string) *Violation {
 		r.Net.DialFault = nil
 	}
 
+	// connection loss without stopping the tool: Send ends by itself, the next incarnation runs on the same output object
+	connLoss := func() {
+		r.W.Fault("conn_loss_soft_restart")
+		observe()
+		r.Logf("CONNECTION LOSS, in-process restart of incarnation %d (committed=%s)", incarnation, bitString(committed))
+		if maxInInc > contiguous() {
+			simrt.Probe("c14c_conn_loss_with_hole")
+		}
+		r.Net.DialFault = func(string) error { return errors.New("target unreachable") }
+		for _, n := range l.topo.Nodes {
+			for _, ss := range n.Live() {
+				if ss.Dead {
+					continue
+				}
+				p := n.PendingCount(ss)
+				k := 0
+				if p > 0 {
+					k = r.Sched().Choose("loss_exec_more", p+1)
+				}
+				done := n.KillSession(ss, k)
+				r.Logf("  %s %s: %d pending, %d still executed", n.Addr, ss.LabelString(), p, done)
+			}
+		}
+		for i := 0; i < 600 && l.getPhase() != 2; i++ {
+			r.Settle()
+			for _, n := range l.topo.Nodes {
+				for _, ss := range n.Sessions {
+					if !ss.Dead {
+						n.KillSession(ss, 0)
+					}
+				}
+			}
+			if i == 300 {
+				l.cancel()
+				l.mu.Lock()
+				if l.reader != nil {
+					l.reader.pipe.CloseWith(errors.New("run scope closed"))
+				}
+				l.mu.Unlock()
+			}
+			r.Advance(100 * time.Millisecond)
+		}
+		r.Settle()
+		if l.getPhase() != 2 {
+			Inconc("incarnation %d did not end after connection loss", incarnation)
+		}
+		r.Net.DialFault = nil
+		l.reuse = true
+	}
+
 	maxCrashes := 1 + g.Choose("ncrashes", 4)
-	crashes, graceful, restarts := 0, 0, 0
+	crashes, graceful, restarts, resyncs, holeFaults := 0, 0, 0, 0, 0
 	stalled := -1 // index of a node whose requests are not served for now
 	start()
 	for r.BeginStep() {
@@ -421,7 +480,13 @@ func runC14Cluster(r *Run, stratum string) *Violation {
 		} else {
 			acts = append(acts, pipeAction{"unstall-node", 2, func() { r.Logf("node %d resumes", stalled); stalled = -1 }})
 		}
-		if l.getPhase() == 1 && crashes < maxCrashes {
+		// faults while nothing of this incarnation is in flight test little (restarts without traffic are the graceful
+		// stop-start action's business): offer them when business requests are pending or a hole exists
+		l.mu.Lock()
+		fedSome := l.reader != nil && l.fedTo > l.reader.left
+		l.mu.Unlock()
+		holeNow := maxInInc > contiguous() // this incarnation committed (and was told so) a unit behind an uncommitted one
+		if l.getPhase() == 1 && (crashes < maxCrashes && fedSome || holeNow && holeFaults < 2) {
 			w := 1
 			if len(l.ready()) > 0 {
 				w = 3
@@ -429,14 +494,66 @@ func runC14Cluster(r *Run, stratum string) *Violation {
 			if stalled >= 0 && len(l.ready()) > len(ready) {
 				w = 6 // in-flight requests on the stalled node: the state a hole in the journal comes from
 			}
+			if maxInInc > contiguous() {
+				simrt.Probe("c14c_hole_while_running")
+				w = 14 // a later unit is committed (and acknowledged) while an earlier one is not: stop HERE
+			}
 			acts = append(acts, pipeAction{"crash", w, func() {
+				if holeNow {
+					holeFaults++
+				}
 				crashes++
 				crash()
 				observe()
 				stalled = -1
 				start()
 			}})
-			if graceful < 2 {
+			acts = append(acts, pipeAction{"conn-loss", w, func() {
+				if holeNow {
+					holeFaults++
+				}
+				crashes++
+				connLoss()
+				observe()
+				stalled = -1
+				start()
+			}})
+			if resyncs < 1 && crashes < maxCrashes && contiguous() < nUnits-3 {
+				// a full resynchronisation under the same replication id: the link is stopped, a snapshot taken at a
+				// later source offset R is loaded (everything up to R is on the target now) and the root checkpoint
+				// moves to R. The recovery records of the incremental phase before it stay where they are (stale).
+				acts = append(acts, pipeAction{"full-resync", 1, func() {
+					resyncs++
+					stalled = -1
+					r.W.Fault("full_resync")
+					l.stop()
+					observe()
+					// the snapshot of a full sync is taken at the source's CURRENT offset: it lies behind everything the
+					// link has replayed from this history, committed units included
+					c := contiguous()
+					if lc := lastCommitted(); lc > c {
+						c = lc
+					}
+					if c >= nUnits-3 { // the graceful stop completed what was in flight: nothing left to skip over
+						start()
+						return
+					}
+					j := c + 1 + r.Sched().Choose("resync_to", nUnits-2-c-1)
+					for i := 0; i <= j; i++ {
+						committed[i] = true
+					}
+					R := units[j].endOff
+					root.SetHash(0, l.cpName, map[string]string{
+						l.runID + "_runid":   l.runID,
+						l.runID + "_version": "1",
+						l.runID + "_offset":  strconv.FormatInt(R, 10),
+						l.runID + "_mtime":   strconv.FormatInt(time.Now().UnixNano(), 10),
+					})
+					r.Logf("FULL RESYNC: root checkpoint moved to %d (end of unit %d)", R, j)
+					start()
+				}})
+			}
+			if graceful < 2 && crashes < maxCrashes {
 				acts = append(acts, pipeAction{"stop-start", 1, func() {
 					graceful++
 					stalled = -1
